@@ -28,6 +28,9 @@ type Gen struct {
 	ifaceImplCache map[*ssa.Function][]ifaceImpl
 	canary    bool
 	spawned   map[*ssa.Function]bool
+	mutableGlobals map[string]bool
+	globalStored   map[string]bool
+	globalMaybeNil map[string]bool
 }
 
 type locKind int
@@ -668,6 +671,11 @@ func (t *fnTrans) missingSites() {
 			check(label, sl)
 		}
 	}
+	for label, sls := range fc.atSet {
+		for _, sl := range sls {
+			check(label, sl)
+		}
+	}
 	for _, gl := range fc.ghost {
 		if _, _, site, ok := splitGhost(gl.text); ok {
 			check(site, gl)
@@ -1122,6 +1130,17 @@ func (t *fnTrans) unop(in *ssa.UnOp) {
 		}
 		v := t.setVal(in, t.load(l))
 		t.assumeLoaded(v, in.Type())
+		if l.kind == locGlobal && !t.g.mutableGlobals[l.hv] && t.sortOf(in.Type()) == "Int" {
+			if _, isInt := in.Type().Underlying().(*types.Basic); !isInt {
+				// a global set only by init(): whatever it refers to existed before this call
+				t.assume("(<= " + v + " " + t.h.get(t.entry, "alloc") + ")")
+				if !t.g.globalStored[l.hv] {
+					t.assume("(= " + v + " 0)") // never assigned anywhere: the zero value
+				} else if !t.g.globalMaybeNil[l.hv] {
+					t.assume("(not (= " + v + " 0))") // only ever assigned freshly made objects
+				}
+			}
+		}
 		t.ownLoadHook(in, l)
 	case token.NOT:
 		t.setVal(in, not(t.val(in.X)))
